@@ -268,6 +268,22 @@ def classify_sinks(it, commutative_calls=()):
         else:
             # list comprehension / generator: look at the consumer
             cons = par
+            # a generator that is only the iterable of one for loop (directly, or through a local bound once and read once) is that loop
+            loop = None
+            if it.kind == "genexp" and isinstance(cons, ast.For) and cons.iter is host:
+                loop = cons
+            elif it.kind == "genexp" and isinstance(cons, ast.Assign) and cons.value is host and len(cons.targets) == 1 and isinstance(cons.targets[0], ast.Name):
+                fn_ = enclosing_function(host)
+                nm_ = cons.targets[0].id
+                if fn_ is not None:
+                    loads = [x for x in ast.walk(fn_) if isinstance(x, ast.Name) and x.id == nm_ and isinstance(x.ctx, ast.Load)]
+                    stores = [x for x in ast.walk(fn_) if isinstance(x, ast.Name) and x.id == nm_ and isinstance(x.ctx, ast.Store)]
+                    if len(loads) == 1 and len(stores) == 1 and isinstance(parent(loads[0]), ast.For) and parent(loads[0]).iter is loads[0]:
+                        loop = parent(loads[0])
+            if loop is not None and not getattr(it, "_via_loop", False):
+                sub = Iteration(loop, loop.iter, loop.body, "for")
+                sub._via_loop = True
+                return classify_sinks(sub, commutative_calls)
             if isinstance(cons, ast.Call) and (call_name(cons) in ORDER_FREE_REDUCERS or call_attr(cons) in ("update", "intersection", "union", "difference", "issubset", "isdisjoint")):
                 sinks.append((host, "commutative", "consumed by %s" % (call_name(cons) or call_attr(cons))))
             elif isinstance(cons, ast.Call) and call_attr(cons) == "join":
